@@ -26,6 +26,7 @@ import (
 	"testing"
 	"time"
 
+	"github.com/coinbase/kryptology/pkg/core/curves"
 	"github.com/coinbase/kryptology/pkg/dkg/frost"
 	"github.com/coinbase/kryptology/pkg/sharing"
 	k1 "github.com/decred/dcrd/dcrec/secp256k1/v4"
@@ -48,6 +49,12 @@ type c11pConfig struct {
 	Resend  int    `json:"resend"`  // node whose message reaches the victim more than once
 	Delayed int    `json:"delayed"` // node whose message reaches the victim last
 	Copies  int    `json:"copies"`
+	// Fault makes node Faulty (0-based) a FAULTY participant (class "faulty"): thr_plus1 | thr_minus1 (it runs with threshold +-1),
+	// extra_commitment | drop_commitment, bad_validx | bad_source | bad_target (fields of a round-1 cast), share_wrong_target,
+	// swap_validators (p2p shares of two validators exchanged). Equivocation (a cast that differs per receiver) is not
+	// simulated: the reliable broadcast (property C13) which the stand-in replaces makes it undeliverable.
+	Fault  string `json:"fault,omitempty"`
+	Faulty int    `json:"faulty,omitempty"`
 }
 
 const (
@@ -175,11 +182,61 @@ type c11pTransport struct {
 	inner *frostP2P
 	r1Ret chan struct{}
 	r2Ret chan struct{}
+	fault string // set on the faulty participant only
+	n     int
+	vals  int
+}
+
+// tamper applies the faulty participant's deviation to what it sends in round 1.
+func (w c11pTransport) tamper(c map[msgKey]frost.Round1Bcast, s map[msgKey]sharing.ShamirShare) (map[msgKey]frost.Round1Bcast, map[msgKey]sharing.ShamirShare) {
+	c2 := map[msgKey]frost.Round1Bcast{}
+	s2 := map[msgKey]sharing.ShamirShare{}
+	first := true
+	for k, v := range c {
+		if k.ValIdx == 0 && first {
+			first = false
+			switch w.fault {
+			case "bad_validx":
+				k.ValIdx = uint32(w.vals)
+			case "bad_source":
+				k.SourceID = k.SourceID%uint32(w.n) + 1
+			case "bad_target":
+				k.TargetID = 1
+			case "extra_commitment":
+				cm := append(append([]curves.Point(nil), v.Verifiers.Commitments...), v.Verifiers.Commitments[0])
+				v.Verifiers = &sharing.FeldmanVerifier{Commitments: cm}
+			case "drop_commitment":
+				cm := v.Verifiers.Commitments
+				v.Verifiers = &sharing.FeldmanVerifier{Commitments: append([]curves.Point(nil), cm[:len(cm)-1]...)}
+			}
+		}
+		c2[k] = v
+	}
+	var moved bool
+	for k, v := range s {
+		switch {
+		case w.fault == "share_wrong_target" && !moved:
+			moved = true
+			for t := uint32(1); t <= uint32(w.n); t++ {
+				if t != k.TargetID && t != k.SourceID {
+					k.TargetID = t
+					break
+				}
+			}
+		case w.fault == "swap_validators" && w.vals > 1 && k.ValIdx < 2:
+			k.ValIdx = 1 - k.ValIdx
+		}
+		s2[k] = v
+	}
+	return c2, s2
 }
 
 func (w c11pTransport) Round1(ctx context.Context, c map[msgKey]frost.Round1Bcast, s map[msgKey]sharing.ShamirShare,
 ) (map[msgKey]frost.Round1Bcast, map[msgKey]sharing.ShamirShare, error) {
 	defer close(w.r1Ret)
+	if w.fault != "" {
+		c, s = w.tamper(c, s)
+	}
 	return w.inner.Round1(ctx, c, s)
 }
 
@@ -192,7 +249,11 @@ func (w c11pTransport) Round2(ctx context.Context, c map[msgKey]frost.Round2Bcas
 func c11pRun(t *testing.T, c *c11Ceremony) ([][]share.Share, error) {
 	t.Helper()
 	n := c.N
-	ctx, cancel := context.WithTimeout(context.Background(), 25*time.Second)
+	limit := 25 * time.Second
+	if c.P2P.Fault != "" {
+		limit = 4 * time.Second // honest nodes that reject the faulty participant's message wait for it until their context expires
+	}
+	ctx, cancel := context.WithTimeout(context.Background(), limit)
 	defer cancel()
 	nw := &c11pNet{n: n, cfg: *c.P2P, r: rand.New(rand.NewSource(c.OrderSeed)), ctx: ctx, seen: map[string]map[int]bool{}}
 
@@ -296,8 +357,18 @@ func c11pRun(t *testing.T, c *c11Ceremony) ([][]share.Share, error) {
 					cancel()
 				}
 			}()
-			tp := c11pTransport{inner: tps[i], r1Ret: nw.r1Ret[i], r2Ret: nw.r2Ret[i]}
-			res[i], errs[i] = runFrostParallel(ctx, tp, uint32(c.Vals), uint32(n), uint32(c.T), uint32(i+1), "7")
+			tp := c11pTransport{inner: tps[i], r1Ret: nw.r1Ret[i], r2Ret: nw.r2Ret[i], n: n, vals: c.Vals}
+			th := c.T
+			if c.P2P.Fault != "" && i == c.P2P.Faulty {
+				tp.fault = c.P2P.Fault
+				switch c.P2P.Fault {
+				case "thr_plus1":
+					th++
+				case "thr_minus1":
+					th--
+				}
+			}
+			res[i], errs[i] = runFrostParallel(ctx, tp, uint32(c.Vals), uint32(n), uint32(th), uint32(i+1), "7")
 			if errs[i] != nil {
 				cancel()
 			}
@@ -325,7 +396,7 @@ func c11pRun(t *testing.T, c *c11Ceremony) ([][]share.Share, error) {
 	}
 	nw.mu.Lock()
 	defer nw.mu.Unlock()
-	if len(nw.cbErr) > 0 {
+	if len(nw.cbErr) > 0 && c.P2P.Fault == "" {
 		return res, fmt.Errorf("a transport callback rejected an honest message: %s", nw.cbErr[0])
 	}
 	return res, nil
@@ -381,6 +452,22 @@ func TestVerifC11P2P(t *testing.T) {
 			}
 		}
 	}
+	if os.Getenv("VERIF_REPLAY") == "" {
+		faults := []string{"thr_plus1", "thr_minus1", "extra_commitment", "drop_commitment", "bad_validx", "bad_source", "bad_target", "share_wrong_target", "swap_validators"}
+		pick := []string{"thr_plus1", faults[1+int(seed)%8], faults[1+int(seed+3)%8], faults[1+int(seed+5)%8]}
+		if thorough {
+			pick = append(append([]string{"thr_plus1", "thr_plus1"}, faults...), "thr_minus1")
+		}
+		for k, f := range pick {
+			n := 4 + k%2
+			th := 2 + r.Intn(n-2) // t+1 <= n
+			if f == "thr_minus1" {
+				th = 3 + r.Intn(n-2)
+			}
+			todo = append(todo, c11Ceremony{N: n, T: th, Vals: 2, OrderSeed: r.Int63(),
+				P2P: &c11pConfig{Class: "faulty", Fault: f, Faulty: r.Intn(n), Copies: 1}})
+		}
+	}
 	for i := range todo {
 		if len(out.Violations) >= 6 {
 			break // enough concrete replays; failing ceremonies of a faulty tree can take their whole timeout
@@ -390,6 +477,20 @@ func TestVerifC11P2P(t *testing.T) {
 		res, err := c11pRun(t, c)
 		out.Dist["p2p_"+c.P2P.Class]++
 		out.Dist[fmt.Sprintf("n%d", c.N)]++
+		if c.P2P.Fault != "" {
+			// a faulty participant: the ceremony must fail, or end with one consistent t-of-n key on all nodes
+			out.Dist["p2p_fault_"+c.P2P.Fault]++
+			if err != nil {
+				c.Err = "ceremony fails (as it may): " + err.Error()
+				out.Dist["p2p_faulty_ceremony_fails"]++
+			} else if key, what := c11Check(t, c, res, r, out.Checks); key != "" {
+				out.Violations = append(out.Violations, c11Violation{Key: key,
+					What: fmt.Sprintf("real frostP2P transport with ONE faulty participant (node %d: %s; n=%d, configured t=%d): the ceremony reports success on all nodes, but %s",
+						c.P2P.Faulty+1, c.P2P.Fault, c.N, c.T, what), Replay: *c})
+			}
+			out.Ceremonies = append(out.Ceremonies, *c)
+			continue
+		}
 		if err != nil {
 			c.Err = err.Error()
 			out.Violations = append(out.Violations, c11Violation{Key: "dkg:ceremony-fails-under-redelivery-or-reordering",
